@@ -354,6 +354,11 @@ func ParseSliceHeader(nalu []byte, spsMap map[uint32]*SPS, ppsMap map[uint32]*PP
 	}
 	if pps.TilesEnabledFlag || pps.EntropyCodingSyncEnabledFlag {
 		sh.NumEntryPointOffsets = r.ReadExpGolomb()
+		if sh.NumEntryPointOffsets > uint(len(nalu))*8 {
+			// Every entry point offset takes at least one bit of the slice segment header
+			return sh, fmt.Errorf("num_entry_point_offsets %d does not fit into a NAL unit of %d bytes",
+				sh.NumEntryPointOffsets, len(nalu))
+		}
 		if sh.NumEntryPointOffsets > 0 {
 			// value shall be in the range of 0 to 31, inclusive
 			sh.OffsetLenMinus1 = uint8(r.ReadExpGolomb())
